@@ -1,7 +1,11 @@
 (* Encoders of the C16 models' results into Lib/Obs.T for the correspondence check. *)
 From Coq Require Import List ZArith NArith Bool.
+From Coq Require String Ascii.
 From Circ Require Import Lib.Obs Model.StaticPath Model.Ranges.
 Import ListNotations.
+
+(* ASCII literals of the generated cases *)
+Definition L (s : String.string) : str := map Ascii.N_of_ascii (String.list_ascii_of_string s).
 
 Fixpoint lookup (k : str) (tbl : list (str * str)) : option str :=
   match tbl with
@@ -9,10 +13,32 @@ Fixpoint lookup (k : str) (tbl : list (str * str)) : option str :=
   | (a, b) :: r => if str_eqb k a then Some b else lookup k r
   end.
 
-(* the decision of Static._on_request on a file system given by the tables [files], [dirs];
-   [unq_tbl] holds the calls of urllib.parse.unquote the implementation made.
-   Tl [Tn (-1)] = the model asked for a decoding the implementation did not ask for. *)
-Definition obs_path (files dirs : list str) (unq_tbl : list (str * str))
+(* The file system as the answers the real os.path.exists / isfile / isdir gave for the paths the
+   implementation asked about: (path, (exists, isfile, isdir)).  A path that is not in the table
+   gets the answer [dflt]; the model is run with both defaults and must not depend on it. *)
+Definition fstable := list (str * (bool * bool * bool)).
+Fixpoint fs_lookup (k : str) (tbl : fstable) : option (bool * bool * bool) :=
+  match tbl with
+  | [] => None
+  | (a, b) :: r => if str_eqb k a then Some b else fs_lookup k r
+  end.
+Definition fs_fun (tbl : fstable) (dflt : bool) (sel : bool * bool * bool -> bool) (p : str) : bool :=
+  match fs_lookup p tbl with Some t => sel t | None => dflt end.
+
+Definition outcome_eqb (a b : outcome) : bool :=
+  match a, b with
+  | Pass, Pass => true
+  | File x, File y => str_eqb x y
+  | NotFound x, NotFound y => str_eqb x y
+  | Listing x, Listing y => str_eqb x y
+  | _, _ => false
+  end.
+
+(* the decision of Static._on_request; [unq_tbl] holds the calls of urllib.parse.unquote the
+   implementation made.
+   Tl [Tn (-1)] = the model asked for a decoding the implementation did not ask for,
+   Tl [Tn (-2)] = the model's answer depends on a file-system question the implementation did not ask. *)
+Definition obs_path (fs : fstable) (unq_tbl : list (str * str))
            (mount : option str) (d : str) (defaults : list str) (dirlisting : bool)
            (reqpath : str) : T :=
   let asked := match unmount mount reqpath with Some p => Some (strip_sl p) | None => None end in
@@ -22,22 +48,29 @@ Definition obs_path (files dirs : list str) (unq_tbl : list (str * str))
   if miss then Tl [Tn (-1)]
   else
     let unq := fun s => match lookup s unq_tbl with Some r => r | None => [] end in
-    match static_request (fun p => memb p files || memb p dirs) (fun p => memb p files)
-                         (fun p => memb p dirs) unq mount d defaults dirlisting reqpath with
-    | Pass => Tl [Tn 0]
-    | NotFound _ => Tl [Tn 0]
-    | File l => Tl [Tn 1; Tb l]
-    | Listing l => Tl [Tn 2; Tb l]
-    end.
+    let run := fun dflt =>
+      static_request (fs_fun fs dflt (fun t => fst (fst t))) (fs_fun fs dflt (fun t => snd (fst t)))
+                     (fs_fun fs dflt snd) unq mount d defaults dirlisting reqpath in
+    if negb (outcome_eqb (run true) (run false)) then Tl [Tn (-2)]
+    else match run false with
+         | Pass => Tl [Tn 0]
+         | NotFound _ => Tl [Tn 0]
+         | File l => Tl [Tn 1; Tb l]
+         | Listing l => Tl [Tn 2; Tb l]
+         end.
 
 (* content of the test files: byte i is (7 i + 3) mod 251 *)
-Definition content (n : nat) : list N :=
-  map (fun i => N.modulo (7 * N.of_nat i + 3) 251) (seq 0 n).
+Fixpoint content_from (n : nat) (i : N) : list N :=
+  match n with
+  | O => []
+  | S k => N.modulo (7 * i + 3) 251 :: content_from k (i + 1)
+  end.
+Definition content (n : N) : list N := content_from (N.to_nat n) 0.
 
 Definition Tbody (b : list N) : T :=
   if Nat.leb (length b) 32 then Tb b else Tl [Tnat (length b)].
 
-Definition obs_range (proto11 : bool) (hv : option str) (size : nat) : T :=
+Definition obs_range (proto11 : bool) (hv : option str) (size : N) : T :=
   match serve_range proto11 hv (content size) with
   | Full len => Tl [Tn 0; Tn len]
   | R416 len => Tl [Tn 1]
